@@ -8,7 +8,7 @@
    the real code took.  Every theorem below is about all reachable states / all accepted steps. *)
 From Coq Require Import List NArith Bool Arith Permutation.
 From V Require Import gen.Consts model.Fetcher proofs.Fetcher proofs.FetcherDet proofs.FetcherSched
-  proofs.FetcherProps proofs.FetcherProps2 proofs.FetcherLive proofs.FetcherExamples.
+  proofs.FetcherProps proofs.FetcherProps2 proofs.FetcherLive proofs.FetcherExamples proofs.FetcherBridge.
 Import ListNotations.
 Open Scope N_scope.
 
@@ -172,3 +172,43 @@ Theorem liveness : forall U h x tr,
   (unheld_count U (r_held r1) <= MAXn * length rs)%nat ->
   exists r, In r rs /\ inflight (r_post r) x.
 Proof. exact liveness_lemma. Qed.
+
+(* bridge to C09 (model/Replication.v abstracts add_keys on an idle fetcher).  For the transcription run
+   with ANY hash-map iteration order, on a state with an empty queue, no range / fullness limit and no
+   timed-out fetch, an advert without duplicate entries, and
+   |in-flight entries not dropped as now-held| + |fetch_set| <= MAX_PARALLEL_FETCH, where
+   fetch_set = advertised entries whose KEY is not held and whose (key, type) is not in flight:
+   exactly fetch_set is returned (from the advertising holder) and put in flight, on the fast path
+   (one unheld advertised entry) and on the queue path alike; limits and clock unchanged; no event.
+   The queue afterwards is `lingering`: on the queue path the advertised unheld entries that were
+   ALREADY in flight stay queued for this holder -- it is empty only if there are none
+   (add_keys_idle_clean) or the fast path was taken. *)
+Theorem add_keys_within_cap_fetches_exactly_unheld : forall iter s h inc held,
+  (forall l, Permutation (iter l) l) ->
+  tbf s = [] -> range s = None -> farthest s = None ->
+  NoDup inc -> (forall e, In e (ongoing s) -> ~ expired s e) ->
+  (length (kept s held) + length (fetch_set s held inc) <= MAXn)%nat ->
+  let post := fst (step_code iter s (AddKeys h inc held)) in
+  let out := snd (step_code iter s (AddKeys h inc held)) in
+  Permutation (ret out) (map (fun x => (h, fst x)) (fetch_set s held inc)) /\
+  events out = [] /\
+  Permutation (ongoing post)
+              (kept s held ++ map (fun x => (x, (h, now s + FETCH_T))) (fetch_set s held inc)) /\
+  tbf post = lingering s h held inc /\
+  range post = None /\ farthest post = None /\ now post = now s.
+Proof. exact add_keys_idle_lemma. Qed.
+
+Theorem add_keys_idle_clean : forall iter s h inc held,
+  (forall l, Permutation (iter l) l) ->
+  tbf s = [] -> range s = None -> farthest s = None ->
+  NoDup inc -> (forall e, In e (ongoing s) -> ~ expired s e) ->
+  (forall x, In x (unheld_inc held inc) -> og_mem x (ongoing s) = false) ->
+  (length (ongoing s) + length (unheld_inc held inc) <= MAXn)%nat ->
+  let post := fst (step_code iter s (AddKeys h inc held)) in
+  let out := snd (step_code iter s (AddKeys h inc held)) in
+  Permutation (ret out) (map (fun x => (h, fst x)) (unheld_inc held inc)) /\
+  events out = [] /\
+  Permutation (ongoing post)
+              (kept s held ++ map (fun x => (x, (h, now s + FETCH_T))) (unheld_inc held inc)) /\
+  tbf post = [] /\ range post = None /\ farthest post = None /\ now post = now s.
+Proof. exact add_keys_idle_clean_lemma. Qed.
